@@ -36,14 +36,15 @@ def project(rendered_class: str) -> str:
         fname, shape, kt, tag, dflt = f.split(":", 4)
         kind, args = shape.split("(", 1) if "(" in shape else (shape, ")")
         args = args[:-1].split(",")
+        dd = "STRUCT" if dflt.startswith("E") else dflt
         if kind == "prim":
-            out.append(f"{fname}:prim({kt}):{args[1]}:{tag}")
+            out.append(f"{fname}:prim({kt}):{args[1]}:{tag}:{dd}")
         elif kind == "primArr":
-            out.append(f"{fname}:primArr({kt}):{args[2]}:{tag}")
+            out.append(f"{fname}:primArr({kt}):{args[2]}:{tag}:{dd}")
         elif kind == "ent":
-            out.append(f"{fname}:struct({args[0]}):{args[1]}:{tag}")
+            out.append(f"{fname}:struct({args[0]}):{args[1]}:{tag}:{dd}")
         elif kind == "entArr":
-            out.append(f"{fname}:structArr({args[0]}):{args[1]}:{tag}")
+            out.append(f"{fname}:structArr({args[0]}):{args[1]}:{tag}:{dd}")
         else:
             out.append(f"{fname}:bad")
     return f"{name}|{'true' if et != 'nested' else 'false'}|{flex}|{key}|{hdr}|" + " ".join(out)
@@ -63,7 +64,7 @@ def known_H(exp: str, got: str) -> bool:
         if x == y:
             continue
         xs, ys = x.split(":"), y.split(":")
-        if xs[1].startswith("primArr(") and xs[0] == ys[0] and xs[1] == ys[1] and xs[3] == ys[3] and xs[2] == "true" and ys[2] == "false":
+        if xs[1].startswith("primArr(") and xs[0] == ys[0] and xs[1] == ys[1] and xs[3:] == ys[3:] and xs[2] == "true" and ys[2] == "false":
             hit = True
         else:
             return False
